@@ -108,7 +108,13 @@ class C14(Prop):
             else:
                 pairs[k][0] = pairs[k][0][:-1] + ["nope"]
         wrap = r.choice([None, None, "Optional[{output_param}]", "Union[{output_param}, str]"])
-        ev = r.random() < 0.15 and all(len(p[0]) == 1 for p in pairs) and not bad
+        ev = r.random() < 0.15 and not bad
+        if ev:
+            # eval mode: top-level inputs only; mostly the iterable ones (the others are a recorded finding)
+            for p in pairs:
+                p[0] = [r.choice(["choices", "sizes"] if r.random() < 0.8 else ["depth", "opt"])]
+            pairs = [p for p in pairs if kind_of(resolve(out_tree.body, p[1])[0][0]) != "arg"] or pairs[:1]
+            wrap = None
         run.dist["pairs"][len(pairs)] += 1
         run.dist["wrap"][str(wrap)] += 1
         run.dist["eval"][ev] += 1
@@ -305,12 +311,14 @@ def classify_case(c, in_tree, out_tree):
 
     if c["eval"] and any(p[0][0] not in ("choices", "sizes") for p in c["pairs"]):
         return "C14-eval-of-a-scalar-or-string-value"
+    if c["eval"] and any(resolve(out_tree.body, p[1]) and isinstance(resolve(out_tree.body, p[1])[0][0], ast.arg) for p in c["pairs"]):
+        return "C14-eval-onto-a-function-argument-raises"
     ins = [tuple(p[0]) for p in c["pairs"]]
     if c["wrap"] is not None and len(set(ins)) < len(ins):
         return "C14-wrap-applied-again-when-an-input-address-repeats"
     rewrite_side = ("C15-D12-nesting-deeper-than-two", "C15-D13-function-node-never-replaced", "C15-D25-string-constant-equals-segment")
     for il, ol in c["pairs"]:
-        f = c15_classify({"search": il}, in_tree, resolve(in_tree.body, il))
+        f = None if c["eval"] else c15_classify({"search": il}, in_tree, resolve(in_tree.body, il))  # eval mode does not search the input tree
         if f:
             return f.replace("C15-", "C14-")
         # the output side is addressed by RewriteAtQuery alone: only its own recorded findings apply there
